@@ -48,7 +48,7 @@ def directional(case):
         warnings.simplefilter('ignore')
         for shape in [(3,), (1,), (2, 2), (2, 3), (3, 2)]:
             A = rng.normal(size=shape); x0 = rng.normal(size=shape); v = rng.normal(size=shape) * 2.5
-            f = lambda z: np.sum(A * z) + 0.5 * np.sum(z * z)
+            f = lambda z: np.sum(A.ravel() * np.ravel(z)) + 0.5 * np.sum(np.ravel(z) ** 2)
             want = np.sum((A + x0) * v) / np.linalg.norm(v.ravel())
             got = nd.directionaldiff(f, x0, v)
             g = np.sum(nd.Gradient(f)(x0).ravel() * v.ravel()) / np.linalg.norm(v.ravel())
